@@ -282,3 +282,39 @@ class SymDict(SOpaque):
                 return v
             return SFunc("model", pop)
         raise Unsupported(f"dict method {name} on a dict of unbounded size")
+
+
+class SymList(SOpaque):
+    """a python list of strings of unknown length, as far as the code under contract uses it: membership (a set term),
+    the last element, emptiness.  append() updates all three."""
+
+    def __init__(self, name, members=None, last=None, nonempty=None):
+        super().__init__(name, cls=list)
+        S = z3.StringSort()
+        self.members = members if members is not None else z3.EmptySet(S)
+        self.last = last if last is not None else z3.StringVal("")
+        self._nonempty = nonempty if nonempty is not None else z3.BoolVal(False)
+
+    @property
+    def nonempty(self):
+        return self._nonempty
+
+    def contains(self, I, v):
+        return z3.IsMember(I.to_str_term(v), self.members)
+
+    def getitem(self, I, key):
+        if key != -1:
+            raise Unsupported("only [-1] of a list of unknown length")
+        if not I.branch(self._nonempty):
+            I.raise_(IndexError, "list index out of range")
+        return SStr(self.last)
+
+    def getattr(self, I, name):
+        if name == "append":
+            def append(I2, a, k):
+                t = I2.to_str_term(a[0])
+                self.members = z3.SetAdd(self.members, t)
+                self.last = t
+                self._nonempty = z3.BoolVal(True)
+            return SFunc("model", append)
+        raise Unsupported(f"list method {name} on a list of unknown length")
